@@ -685,8 +685,43 @@ fn run_c02(seed: u64, n: usize, oracle_only: bool, budget: usize, out: &mut Out)
     let mut stats = GenStats { generated: 0, frontend_rejected: 0, frontend_panicked: 0, reject_kinds: Default::default() };
     let mut runs = 0u64;
     let mut max_calls = 0usize;
-    for _ in 0..n {
-        let c = gen_case(&mut rng, &schema, &mut stats, 0);
+    // next to the generated worlds: tags defined inside an @optional scope and used by filters inside a
+    // later @fold (imported tags) or on a later vertex, where adjacent contexts differ in whether the
+    // scope exists - the places where the engine pairs a resolver's outputs with per-context state
+    let optional_tag_family = (n / 5).max(40);
+    for i in 0..(n + optional_tag_family) {
+        let c = if i < n {
+            gen_case(&mut rng, &schema, &mut stats, 0)
+        } else {
+            let mut r2 = rng.fork();
+            let root = *r2.pick(&["Thing", "Item", "Box", "Gadget"]);
+            let e1 = *r2.pick(&["parent", "next(hi: 4)", "next(lo: 3)", "link"]);
+            let e2 = *r2.pick(&["next", "link", "next(hi: 9)"]);
+            let op = *r2.pick(&["=", "!=", "<", ">=", "<="]);
+            let tagged = *r2.pick(&["id @tag(name: \"t\")", "score @tag(name: \"t\")", "link @fold @transform(op: \"count\") @tag(name: \"t\")"]);
+            let user = match r2.range(0, 2) {
+                0 => format!("{e2} @fold {{ id @filter(op: \"{op}\", value: [\"%t\"]) @output(name: \"x\") }}"),
+                1 => format!("{e2} @fold @transform(op: \"count\") @filter(op: \"{op}\", value: [\"%t\"]) @output(name: \"x\")"),
+                _ => format!("{e2} {{ id @filter(op: \"{op}\", value: [\"%t\"]) @output(name: \"x\") }}"),
+            };
+            let text = format!("query {{ {root} {{ id @output(name: \"r\") {e1} @optional {{ {tagged} }} {user} }} }}");
+            let indexed = match trustfall_core::frontend::parse(&schema, &text) {
+                Ok(ix) => ix,
+                Err(e) => {
+                    out.oracle_fail("optional-tag template was rejected by the frontend", json!({"query": text}), json!({"error": format!("{e:?}")}));
+                    continue;
+                }
+            };
+            out.count("family:tag-from-optional-scope");
+            EngineCase {
+                dataset: world::gen_dataset(&mut r2, 9),
+                query_text: text,
+                indexed,
+                args: std::sync::Arc::new(Default::default()),
+                features: Default::default(),
+                var_hints: Default::default(),
+            }
+        };
         let direct = run_impl(&c);
         let direct_s = show_outcome(&direct);
         for f in &c.features {
